@@ -39,13 +39,15 @@ def evaluate(spec):
     else:
         o1 = oracle.run_e2e(b, wd, keys=v, name="variant")
     f1 = oracle.base_failure(o1)
-    dims = (2 if v.get("explicit") else 0) + sum(1 for k in ("shuffle", "crlf") if v.get(k)) + sum(1 for k in ("comments", "blanks", "unrelated", "dup") if v.get(k, 0) > 0) + \
+    dims = (2 if v.get("explicit") or v.get("straddle") else 0) + sum(1 for k in ("shuffle", "crlf") if v.get(k)) + sum(1 for k in ("comments", "blanks", "unrelated", "dup") if v.get(k, 0) > 0) + \
         (1 if v.get("upper", "none") != "none" else 0)
     uses_dsb = bool(v.get("dsb"))
     labels = ["dsbpos:" + v.get("dsb_pos", "first") if v.get("dsb") else "dsbpos:-", "delivery:" + ("dsb-only" if uses_dsb and not v.get("file", True) else "file+dsb" if uses_dsb else "file"),
               "dsbs:%d" % len(v.get("dsb") or []), "upper:" + v.get("upper", "none"), "sub" if sub else "inproc",
               "kinds:" + "+".join(sorted({c["kind"] for c in spec["conns"]}))]
-    for k in ("shuffle", "crlf", "comments", "blanks", "unrelated", "dup", "explicit", "no_final_nl"):
+    if v.get("straddle"):
+        labels.append("block:%d" % v["straddle"][0])
+    for k in ("shuffle", "crlf", "comments", "blanks", "unrelated", "dup", "explicit", "no_final_nl", "straddle"):
         if v.get(k):
             labels.append("decor:" + k)
     nontrivial = bool(o0.pkts) and (dims >= 2 or uses_dsb)
@@ -123,11 +125,7 @@ def spec_strategy(draw, sub=False):
     return sc
 
 
-def line_order_specs(tier):
-    """every order of the lines of one connection's key log x one line repeated at every position (quick: a seeded sample)"""
-    import itertools
-    import random
-    rnd = random.Random(engine.derive_seed(os.environ.get("VERIF_SEED", "1"), PID, "line-orders"))
+def line_order_bases():
     bases = []
     ep = {"v6": False, "cmac": "020000000001", "smac": "020000000002", "sport": 443, "cport": 40001, "cip": "10.1.2.3", "sip": "192.168.7.9"}
     for ver, suite, extra in ((0x0304, 0x1301, {}), (0x0304, 0x1303, {"tickets": 1}), (0x0303, 0xC02F, {}), (0x0301, 0x002F, {})):
@@ -138,6 +136,15 @@ def line_order_specs(tier):
          "steps": [{"op": "data", "d": 0, "pk": [{"fr": [["stream", 0, 50, None, False, True, None]], "gap": 0, "pnl": 0}]},
                    {"op": "data", "d": 1, "pk": [{"fr": [["stream", 0, 90, None, False, True, None]], "gap": 0, "pnl": 0}]}]}
     bases.append({"conns": [q], "order": [0], "tseed": 5})
+    return bases
+
+
+def line_order_specs(tier):
+    """every order of the lines of one connection's key log x one line repeated at every position (quick: a seeded sample)"""
+    import itertools
+    import random
+    rnd = random.Random(engine.derive_seed(os.environ.get("VERIF_SEED", "1"), PID, "line-orders"))
+    bases = line_order_bases()
     out = []
     for base in bases:
         n = len(scenario.build_conns(base).keylog)
@@ -157,16 +164,41 @@ def line_order_specs(tier):
     return out
 
 
+def block_boundary_specs(tier):
+    """long key logs: a line of the connection lies across a multiple of a typical read-block size, cut at every kind of position
+    (inside the label, the client random, the secret; at the separators; at the line end)"""
+    import random
+    rnd = random.Random(engine.derive_seed(os.environ.get("VERIF_SEED", "1"), PID, "block-boundaries"))
+    out = []
+    bases = [sc for sc in line_order_bases()]
+    for bi, base in enumerate(bases):
+        n = len(scenario.build_conns(base).keylog)
+        for block in (4096, 8192, 65536, 131072):
+            for which in range(n):
+                js = sorted({0, 1, 5, 13, 14, 15, 16, 40, 78, 79, 80, 81, 82, 100, 140, 170, 175, 176, 177, 178} | {rnd.randrange(0, 180) for _ in range(4)})
+                if tier == "quick":
+                    js = rnd.sample(js, 3)
+                for j in js:
+                    for dsb in ((False,) if tier == "quick" or block > 8192 else (False, True)):
+                        sc = dict(base)
+                        sc["variant"] = dict(scenario.DEFAULT_KEYS, straddle=[block, 1 + (j + which) % 2, which, j], seed=j * 31 + which,
+                                             file=not dsb, dsb=[None] if dsb else [], crlf=bool((j + bi) % 3 == 0))
+                        out.append(sc)
+    return out
+
+
 def stages(tier):
     quick = tier == "quick"
     return [
         Stage("line-orders", evaluate, specs=line_order_specs(tier)),
+        Stage("block-boundaries", evaluate, specs=block_boundary_specs(tier)),
         Stage("variants", evaluate, strategy=lambda t: spec_strategy(False), examples=500 if quick else 15000),
         Stage("dsb-only-subprocess", evaluate, strategy=lambda t: spec_strategy(True), examples=32 if quick else 600, shrink=False),
     ]
 
 
-RULE = ("stage line-orders: for a TLS 1.3 (with and without tickets), TLS 1.2, TLS 1.0 and QUIC connection, every order of its key-log lines with one line "
+RULE = ("stage block-boundaries: key logs of 4 KiB .. 256 KiB in which a line of the connection lies across a multiple of 4096 / 8192 / 65536 / 131072 "
+        "bytes at every kind of position; stage line-orders: for a TLS 1.3 (with and without tickets), TLS 1.2, TLS 1.0 and QUIC connection, every order of its key-log lines with one line "
         "repeated at every position (quick: 120 sampled per connection); other stages: a TLS and/or QUIC scenario is run with its canonical key log file and with a generated delivery variant: line permutation, LF/CRLF, "
         "comment / blank / unrelated / duplicate lines, last line with or without a line end, upper/lower/mixed-case hex in client random and secret, file only / DSB only (no -s) / "
         "file + DSB / log split over 2-4 DSBs (blocks may be empty) / lines partitioned between file and DSB, DSBs before the interface description block, first after it, or (TLS-only captures) "
